@@ -188,13 +188,34 @@ fn run(ctx: &RunCtx) -> Report {
             let tid = msg.tid_u32().unwrap_or(0);
             let n_spoofs = hr.usize(1, 3);
             for _ in 0..n_spoofs {
-                let src = match hr.below(3) {
-                    0 => SocketAddrV4::new(*g.ip(), g.port().wrapping_add(1)),
-                    1 => SocketAddrV4::new(Ipv4Addr::from(u32::from(*g.ip()) ^ 1), g.port()),
-                    _ => SocketAddrV4::new(Ipv4Addr::new(91, 7, hr.below(250) as u8, 1 + hr.below(250) as u8), hr.range(1024, 60000) as u16),
+                let src = match hr.below(7) {
+                    0 | 1 => SocketAddrV4::new(*g.ip(), g.port().wrapping_add(1)),
+                    2 | 3 => SocketAddrV4::new(Ipv4Addr::from(u32::from(*g.ip()) ^ 1), g.port()),
+                    4 | 5 => SocketAddrV4::new(Ipv4Addr::new(91, 7, hr.below(250) as u8, 1 + hr.below(250) as u8), hr.range(1024, 60000) as u16),
+                    // the right address, but a transaction id that is not outstanding
+                    _ => g,
                 };
                 // which tid: the observed one, or a guess at a future one
-                let (use_tid, future) = if hr.chance(3, 4) { (tid, false) } else { (tid + hr.range(1, 3) as u32, true) };
+                let (use_tid, future) = if src == g {
+                    // never issued during the run, or long consumed / sent to somebody else: an id below
+                    // the current one that this peer never received (ids within 30 of the current one
+                    // could still be on their way to it)
+                    let mut stale: Option<u32> = None;
+                    if tid > 40 && hr.chance(1, 2) {
+                        for _ in 0..8 {
+                            let c = hr.range(0, (tid - 31) as u64) as u32;
+                            if !sh.peers[idx].requests.iter().any(|q| q.from == victim_addr && q.msg.tid_u32() == Some(c)) {
+                                stale = Some(c);
+                                break;
+                            }
+                        }
+                    }
+                    (stale.unwrap_or(tid + 500 + hr.range(0, 500) as u32), true)
+                } else if hr.chance(3, 4) {
+                    (tid, false)
+                } else {
+                    (tid + hr.range(1, 3) as u32, true)
+                };
                 // when: racing the genuine reply (its delay is known to the adversary here)
                 let delay = match hr.below(3) {
                     0 => 0,
@@ -329,7 +350,26 @@ fn run(ctx: &RunCtx) -> Report {
         }
     }
     let dup_fired = sim.stats().duplicated;
-    let holder_late = late_peers.contains(&holder);
+    // in runs with late repliers the adaptive request timeout may have dropped below any peer's
+    // delay, so "the holder's value must surface" is not judged there (only at-most-once and no-effect are)
+    let holder_late = late;
+    // the lookup may legitimately ask the holder more than once (an address that is both in the
+    // bootstrap list and among the candidates): at most one item per answered request
+    let (holder_mutable_replies, holder_peers_replies): (usize, usize) = sim.with_trace(|tr| {
+        let mut m = std::collections::BTreeSet::new();
+        let mut p = std::collections::BTreeSet::new();
+        for d in tr.iter().filter(|d| d.src == addrs[holder] && d.dst == victim_addr && d.fate == Fate::Delivered && d.dup_of.is_none()) {
+            if let Some(k) = Krpc::parse(&d.bytes) {
+                if k.is_response() && k.bytes_field("k").is_some() {
+                    m.insert(k.tid_u32());
+                }
+                if k.is_response() && k.body.get("values").is_some() {
+                    p.insert(k.tid_u32());
+                }
+            }
+        }
+        (m.len(), p.len())
+    });
     for (c, id) in &ops {
         if let Some(p) = sim.with_op(*id, |o| o.panicked.clone()) {
             report.violate("api-panic", "api-call-panicked", format!("call {c} panicked: {p}"));
@@ -347,8 +387,8 @@ fn run(ctx: &RunCtx) -> Report {
                     if items.is_empty() && holder_late {
                     } else if items.is_empty() {
                         report.violate("genuine-reply-lost", "genuine-reply-rejected-after-spoof", format!("get_mutable yielded nothing although genuine peer {} holds the item and answered", addrs[holder]));
-                    } else if items.len() > 1 {
-                        report.violate("exactly-once", "reply-consumed-twice", format!("get_mutable yielded {} items but exactly one genuine peer holds the item (duplicated datagrams in this run: {dup_fired})", items.len()));
+                    } else if items.len() > holder_mutable_replies.max(1) {
+                        report.violate("exactly-once", "reply-consumed-twice", format!("get_mutable yielded {} items but the only genuine holder answered {holder_mutable_replies} request(s) with the item (duplicated datagrams in this run: {dup_fired})", items.len()));
                     }
                 }
                 _ => {}
@@ -361,8 +401,8 @@ fn run(ctx: &RunCtx) -> Report {
                     if batches.is_empty() && holder_late {
                     } else if batches.is_empty() {
                         report.violate("genuine-reply-lost", "genuine-reply-rejected-after-spoof", format!("get_peers yielded nothing although genuine peer {} holds a peer and answered", addrs[holder]));
-                    } else if batches.len() > 1 {
-                        report.violate("exactly-once", "reply-consumed-twice", format!("get_peers yielded {} batches but exactly one genuine peer holds peers", batches.len()));
+                    } else if batches.len() > holder_peers_replies.max(1) {
+                        report.violate("exactly-once", "reply-consumed-twice", format!("get_peers yielded {} batches but the only genuine holder answered {holder_peers_replies} request(s) with values", batches.len()));
                     }
                 }
             }
